@@ -9,7 +9,7 @@ from props import fam_num as F
 ORACLE_LIKE = ('prec', 'tostr')      # a model mismatch here is a printed text outside the half-unit bound
 
 
-MANIFEST = {'technique': 'Coq proof (acceptance set of as_number = CIF number grammar, integer readers = strtol, buffer bounds, nearest-even rounding) + three-way differential check on IEEE bit patterns (gemmi / extracted model / glibc) under two locales', 'text': 'Theorems: for every string and every digit-to-double conversion, cif::as_number returns the conversion of the CIF decimal value exactly when the string is a CIF number (with optional s.u.) and NaN otherwise (snapshot behaviour refuted: "+-1", "1.5()"); string_to_int / read_int / simple_atoi / no_sign_atoi equal strtol on every string they accept and never overflow intermediates when the result fits int; to_str_prec<P> fits its buffer for P <= 6, |d| < 1e8 (16 bytes refuted for P = 6); the reference rounding is round-to-nearest-even (half-ulp bound _partial). Three-way comparison of gemmi, the extracted model and glibc strtod/strtol on bit patterns over grammar-derived strings, near misses, halfway cases, subnormals, overflow, in the C locale and in a generated comma-decimal locale; print->parse half-unit oracle for to_str/to_str_prec; snprintf_z contract.', 'note': 'Trusted: Coq kernel; extraction; harness. No axioms. fast_float digit conversion and stb_sprintf digit generation are not modelled (as_number theorems quantify over every conversion; the executable model is compared with glibc). Strings shorter than 2^28 bytes.'}
+MANIFEST = {'technique': 'Coq proof (acceptance set of as_number = CIF number grammar, integer readers = strtol, buffer bounds, nearest-even rounding) + three-way differential check on IEEE bit patterns (gemmi / extracted model / glibc) under two locales', 'text': 'Theorems: for every string and every digit-to-double conversion, cif::as_number returns the conversion of the CIF decimal value exactly when the string is a CIF number (with optional s.u.) and NaN otherwise (snapshot behaviour refuted: "+-1", "1.5()"); string_to_int / read_int / simple_atoi / no_sign_atoi equal strtol on every string they accept; the repaired (unsigned-accumulating) readers return, for EVERY string with no size precondition, the unbounded value wrapped to 32 bits (the signed accumulation of the snapshot is refuted on 4294967295); to_str_prec<P> fits its buffer for P <= 6, |d| < 1e8 (16 bytes refuted for P = 6); the reference rounding is round-to-nearest-even (half-ulp bound _partial). Three-way comparison of gemmi, the extracted model and glibc strtod/strtol on bit patterns over grammar-derived strings, near misses, halfway cases, subnormals, overflow, in the C locale and in a generated comma-decimal locale; print->parse half-unit oracle for to_str/to_str_prec; snprintf_z contract.', 'note': 'Trusted: Coq kernel; extraction; harness. No axioms. fast_float digit conversion and stb_sprintf digit generation are not modelled (as_number theorems quantify over every conversion; the executable model is compared with glibc). Strings shorter than 2^28 bytes.'}
 
 def gen_lines(rng, n_num, n_int, n_print, bufs):
     lines = []
@@ -56,6 +56,12 @@ def gen_lines(rng, n_num, n_int, n_print, bufs):
                 lines.append('o_int\t%s 0' % F.hx(s))
         if F.int_value_fits(cut, no_sign=True):
             lines.append('nsatoi\t' + F.hx(s))
+        # the repaired readers are defined on numbers of any size: the same string with more digits
+        big = s if rng.random() < 0.3 else s.replace(cut.strip(' \t\n\r\v\f+-')[:1] or '1', rng.choice(['4294967296', '2147483648', '99999999999', '18446744073709551617', '4294967295', '21474836479', '1' + '0' * rng.randint(9, 25), str(rng.getrandbits(rng.randint(30, 70)))]), 1)
+        lines.append('wsti\t%s %d 0' % (F.hx(big), rng.randint(0, 1)))
+        lines.append('wsti\t%s 0 %d' % (F.hx(big), rng.randint(1, 14)))
+        lines.append('wsatoi\t' + F.hx(big))
+        lines.append('wnsatoi\t' + F.hx(big))
         # fixed-column: field of length ln inside a longer record
         ln = rng.randint(1, 8)
         fcut = cut[:ln]
@@ -211,7 +217,7 @@ def run(chk):
                 'listed near misses and one/two-byte mutations, exact halfway decimals between adjacent doubles and '
                 'their neighbours, long mantissas, sub-normals, overflow; integer fields with blanks/signs/trailing '
                 'bytes and fixed-column cuts; doubles/floats stratified over the exponent range plus decimal ties and '
-                'the 1e7/1e8 boundaries. Commands tbl/sti/rint/satoi/nsatoi/asint/num/atof/rdbl compared exactly '
+                'the 1e7/1e8 boundaries. Commands tbl/sti/rint/satoi/nsatoi/wsti/wsatoi/wnsatoi (numbers beyond int)/asint/num/atof/rdbl compared exactly '
                 '(IEEE bit patterns) gemmi vs extracted model vs glibc strtod_l/strtol_l("C"); prec/tostr checked by the '
                 'exact half-unit checker of the model; oracles o_num/o_int/o_dbl/o_print/o_buf/o_snp/o_tcz evaluated on gemmi; '
                 'everything repeated under a locale with decimal point ",". non-trivial = result is not the all-zero '
